@@ -8,6 +8,7 @@ import (
 
 	"verif/internal/corpus"
 	"verif/internal/gram"
+	"verif/internal/ref"
 	"verif/internal/report"
 )
 
@@ -24,8 +25,9 @@ func c14(c *ctx) {
 	cp := corpus.New(c.env, peg, true, "c14")
 	defer cp.Remove()
 	type pc struct {
-		cs  *gcase
-		ins []string
+		cs   *gcase
+		ins  []string
+		long string
 	}
 	var pcs []*pc
 	variantOf := map[int]variant{}
@@ -46,7 +48,27 @@ func c14(c *ctx) {
 		pkg := pkgName(i, v)
 		cs.text = gram.PrintGrammar(g, cs.printOpts(pkg, nil))
 		cp.Add(&corpus.Job{Pkg: pkg, Text: cs.text, Opts: v.opts, NoAST: v.noast, RuleNames: ruleNames(g), HasActions: g.Count(gram.KAction) > 0})
-		pcs = append(pcs, &pc{cs, tractable(g, "R0", gram.Inputs(r, g, "R0", 6, alpha))})
+		ins := tractable(g, "R0", gram.Inputs(r, g, "R0", 6, alpha))
+		// one long accepted input (the matched prefix is longer than 64 runes) for the owners that break their own
+		// instance below: only a tree that reaches beyond what an empty text can be sliced to makes the printer panic
+		long := ""
+		if !v.noast {
+			for try := 0; try < 40 && long == ""; try++ {
+				var l []rune
+				for k := 0; k <= try%8; k++ {
+					l = append(l, gram.Derive(r, g, "R0", alpha)...)
+				}
+				if len(l) < 70 || len(l) > 400 {
+					continue
+				}
+				it := ref.New(g, string(l))
+				it.Limit = 400000
+				if ok, end := it.Parse("R0"); ok && !it.Over && end >= 70 && it.MaxDepth < 200 {
+					long = string(l)
+				}
+			}
+		}
+		pcs = append(pcs, &pc{cs, ins, long})
 	}
 	if err := cp.Build(); err != nil {
 		die("corpus build: %v", err)
@@ -85,7 +107,7 @@ func c14(c *ctx) {
 	want := map[string]string{} // sub-request identity -> sequential observable
 	ident := func(q corpus.Req) string {
 		b, _ := json.Marshal(q.Hist)
-		return fmt.Sprintf("%s|%s|%q|%v|%v|%d|%v|%s", q.Pkg, q.Mode, q.In, q.Memo, q.Pretty, q.Size, q.Shared, b)
+		return fmt.Sprintf("%s|%s|%q|%v|%v|%d|%v|%s|%v", q.Pkg, q.Mode, q.In, q.Memo, q.Pretty, q.Size, q.Shared, b, q.Misuse)
 	}
 	fullKey := func(r *corpus.Res) string {
 		if r.Hist != nil {
@@ -95,7 +117,7 @@ func c14(c *ctx) {
 			}
 			return sb.String() + fmt.Sprintf(" late=%q", r.LateErr)
 		}
-		return resKey(r) + fmt.Sprint(enterLog(r.Events))
+		return resKey(r) + fmt.Sprint(enterLog(r.Events)) + r.Misuse
 	}
 	for i, q := range seq {
 		if !seqRes[i].Lost {
@@ -159,6 +181,28 @@ func c14(c *ctx) {
 			for _, b := range []byte(text) {
 				wantHist[fmt.Sprint(b)] += 8 * 6 // Gor * Reps below
 			}
+		}
+		// faulty neighbours: a few owners break their own instance after the parse (Buffer replaced by "" without
+		// Reset, stale tree printed, panic recovered). Alone, such an owner gets its panic before a single byte is
+		// printed; next to it every healthy instance must still print all of its bytes and return
+		nm := 0
+		for _, p := range pcs {
+			if p.long == "" || nm >= 6 {
+				continue
+			}
+			q3 := corpus.Req{Pkg: pkgName(p.cs.id, variantOf[p.cs.id]), Entry: -1, In: []byte(p.long), Memo: true, Misuse: true}
+			r3, err := cp.Run([]corpus.Req{q3}, corpus.RunOpts{Workers: 1, CPUSeconds: 300})
+			if err != nil || r3[0].Lost {
+				continue
+			}
+			c.run.Count("misuse_alone_"+r3[0].Misuse, 1)
+			if r3[0].Misuse != "panicked" {
+				continue // (the stale tree happened to fit: nothing to learn from this owner)
+			}
+			nm++
+			want[ident(q3)] = fullKey(&r3[0])
+			subs = append(subs, q3)
+			c.run.Count("owners_breaking_their_own_instance_next_to_printing_ones", 1)
 		}
 		if len(subs) > 0 {
 			conc = append(conc, corpus.Req{Mode: "conc", Conc: subs, Gor: 8, Reps: 6, Print: true})
@@ -232,13 +276,13 @@ func c14(c *ctx) {
 	}
 	c.run.Count("race_reports", len(seen))
 	c.run.Extra["race_detector"] = "runner built with -race (GORACE=halt_on_error=0); reports are read from the child's stderr"
-	requireCov(c, "concurrent_calls", "calls_overlapping_another_goroutine", "concurrent_batches", "concurrent_print_calls")
+	requireCov(c, "concurrent_calls", "calls_overlapping_another_goroutine", "concurrent_batches", "concurrent_print_calls", "owners_breaking_their_own_instance_next_to_printing_ones")
 	// an absolute floor, not a fraction: how many calls overlap depends on the machine's load, the verdict must not
 	if c.run.Counters["calls_overlapping_another_goroutine"] < 2000 {
 		c.run.Incon("fewer than 2000 concurrent calls actually overlapped a call of another goroutine")
 	}
 	c.run.Rule = "cases: parser types generated from shared-prefix grammars (captures, actions, memo revisits, half with rule-entry observers; a third generated with -noast, whose inline actions read the captured text); instances are initialised with fresh option values or with option values shared by all instances of the type (Size 4/64, DisableMemoize, Pretty); each (parser, input, memo on/off, Pretty on/off) and a long-lived Reset history are first run alone; then the same requests are run from 2, 8 or 32 goroutines at once (same type with same and different inputs; 8 different types interleaved), each goroutine on its own instances, Init/Parse/Execute/AST/SprintSyntaxTree/Error, under the race detector. The goroutines share nothing with the monitor while running (results merged after join; overlap computed afterwards from monotonic timestamps). " +
-		"A last batch lets 8 goroutines call PrintSyntaxTree() on the shared standard output at once and compares the byte histogram of what arrived with the sum of the individual outputs. Oracle: every concurrent result equals the result alone (verdict, tokens, tree, printed tree, trace, observer log, error token, message); zero race reports. " +
+		"A last batch lets 8 goroutines call PrintSyntaxTree() on the shared standard output at once and compares the byte histogram of what arrived with the sum of the individual outputs; in the same batch a few owners break their own instance (Buffer replaced by the empty string without Reset, stale tree printed, panic recovered — alone this panics before a byte is printed): the healthy instances next to them must still print everything and return. Oracle: every concurrent result equals the result alone (verdict, tokens, tree, printed tree, trace, observer log, error token, message); zero race reports. " +
 		"distinct_nontrivial = distinct (parser, input, config, goroutine count) executed in a batch in which calls of different goroutines overlapped in time."
 	c.run.Assume("schedules are those the Go scheduler produced on this machine (GOMAXPROCS = all cores) with Gosched perturbation; not replayable bit for bit")
 }
